@@ -3,7 +3,7 @@
    `fire cfg d` = Spec.fires_at (cfg_res cfg) d is the instant the runtime's timer for deadline d
    fires: d itself for resolution 1 (C12_timer_resolution), the next multiple of the resolution
    otherwise (tokio's wheel: 1 ms).  All statements hold for every configuration and state. *)
-From Coq Require Import NArith List.
+From Coq Require Import NArith List Bool.
 From Rodbus Require Import Model.Retry Spec.Lifecycle Spec.ClientSpec Gen.SessionErrors Model.ClientTask Model.ClientEager
   Proofs.ClientBase Proofs.C11Proofs Proofs.C12Proofs.
 Import ListNotations.
@@ -97,6 +97,56 @@ Theorem C12_reset_at_start : forall cfg s s1 d, ph s = PConnecting -> retry_call
   ph s' = PIdle /\ tcount s' = tc_reset (tcount s) /\ partial s' = None.
 Proof. exact reset_at_start. Qed.
 Print Assumptions C12_reset_at_start.
+
+(* --- the transmission is bounded too, and its bound is not a response timeout ---
+   execute_request: timeout(request.timeout, io.write(..)), then `deadline = Instant::now() + request.timeout`.
+   The bound is set when the write begins (write start + request timeout) ... *)
+Theorem C12_write_bound_set : forall s r, ph s = PIdle ->
+  forall r' tx u, ph (fst (transmit s r)) = PWriting r' tx u -> r' = r /\ wdl (fst (transmit s r)) = now s + rq_timeout r.
+Proof. exact write_bound_set. Qed.
+Print Assumptions C12_write_bound_set.
+
+(* ... stays as it is while that write is in progress, under every event ... *)
+Theorem C12_write_bound_kept : forall cfg s e r tx u, ph s = PWriting r tx u ->
+  forall r' tx' u', ph (fst (step cfg s e)) = PWriting r' tx' u' -> (r', tx', u') = (r, tx, u) /\ wdl (fst (step cfg s e)) = wdl s.
+Proof. exact write_bound_kept. Qed.
+Print Assumptions C12_write_bound_kept.
+
+(* ... and when the write is not done at its timer instant the request fails with Io and the session ends with IoError -
+   whatever the timeout counter says and without touching it (it does not count towards "N in a row"; the connection
+   is dropped anyway); before that instant the branch is not enabled *)
+Theorem C12_write_timeout_is_io : forall cfg s r tx u, ph s = PWriting r tx u ->
+  Nat.eqb (wpark s) 0 && (fire cfg u <=? now s) = false ->
+  (fire cfg (wdl s) <= now s ->
+     step cfg s EvTimer = (let '(s', o) := end_session (set_ph s PIdle) SeIoError in (s', [OComplete (rq_id r) (RErr ReIo)] ++ o))) /\
+  (now s < fire cfg (wdl s) -> step cfg s EvTimer = (s, [])).
+Proof. exact write_timeout_exact. Qed.
+Print Assumptions C12_write_timeout_is_io.
+
+(* a write that can finish does - also at or after the bound - and the reply deadline counts from the END of the write
+   (C12_deadline); releasing the transport finishes a parked write at once *)
+Theorem C12_write_done_first : forall cfg s r tx u, ph s = PWriting r tx u -> wpark s = 0%nat -> fire cfg u <= now s ->
+  step cfg s EvTimer = (set_ph s (PInFlight r tx (now s + rq_timeout r)), [OWire tx (rq_id r)]).
+Proof. exact write_done_first. Qed.
+Print Assumptions C12_write_done_first.
+
+Theorem C12_release_finishes_write : forall cfg s r tx u, ph s = PWriting r tx u -> wpark s = 1%nat -> fire cfg u <= now s ->
+  step cfg s EvWriteRelease = (set_ph (set_wpark s 0) (PInFlight r tx (now s + rq_timeout r)), [OWire tx (rq_id r)]).
+Proof. exact release_finishes. Qed.
+Print Assumptions C12_release_finishes_write.
+
+(* non-vacuity: limit 1; a parked write times out at 0 + 50 (Io, not counted: the session ends with IoError, not
+   MaxTimeouts); on the next connection a write parked for 30 is released, the reply deadline is 130 + 50 *)
+Example C12_write_example :
+  let cfg := {| cfg_cap := 4; cfg_res := 1 |} in
+  let rq i := CReq {| rq_id := i; rq_kind := KRead; rq_timeout := 50 |} in
+  snd (run cfg (init 1 (Some 1) 20 40)
+    [EvSubmit CEnable SFuture; EvRecv; EvConnect true; EvWritePark; EvSubmit (rq 1%nat) SFuture; EvRecv; EvTick 49; EvTimer; EvTick 1; EvTimer;
+     EvWriteRelease; EvTick 20; EvTimer; EvConnect true; EvTick 30; EvWritePark; EvSubmit (rq 2%nat) SFuture; EvRecv; EvTick 30; EvWriteRelease;
+     EvTick 49; EvTimer; EvTick 1; EvTimer])
+  = [OListen LConnecting; ODial; OListen LConnected; OStamp 0 1; OComplete 1 (RErr ReIo); OEnd SeIoError; OListen (LWaitDisc 20);
+     OListen LConnecting; ODial; OListen LConnected; OStamp 1 2; OWire 1 2; OComplete 2 (RErr ReResponseTimeout); OEnd SeMaxTimeouts; OListen (LWaitDisc 20)].
+Proof. vm_compute. reflexivity. Qed.
 
 (* non-vacuity *)
 Example C12_counter_example :
